@@ -120,10 +120,10 @@ def parseMBAP (s : Slice) : PRes UInt16 :=
   if s.len < 6 then .err (.tcp 4 0 0 0) else
   (s.idx 2).bind fun d2 =>
   (s.idx 3).bind fun d3 =>
-  if d2 != 0 || d3 != 0 then .err (.tcp 4 0 0 0) else
+  if d2 ≠ 0 ∨ d3 ≠ 0 then .err (.tcp 4 0 0 0) else
   (s.rd16 4).bind fun pduLen =>
-  if pduLen == 0 then .err (.tcp 4 0 0 0) else
-  if s.len != 6 + pduLen.toNat then .err (.tcp 4 0 0 0) else
+  if pduLen = 0 then .err (.tcp 4 0 0 0) else
+  if s.len ≠ 6 + pduLen.toNat then .err (.tcp 4 0 0 0) else
   s.rd16 0
 
 /-- `ParseRead{Coils,DiscreteInputs,HoldingRegisters,InputRegisters}RequestTCP` -/
@@ -132,20 +132,20 @@ def parseReadReqTCP (fc : UInt8) (maxQ : UInt16) (s : Slice) : PRes (UInt16 × R
   (s.idx 6).bind fun unit =>
   if s.len < 12 then .err (.tcp 3 tid unit fc) else
   (s.idx 7).bind fun f =>
-  if f != fc then .err (.tcp 1 tid unit fc) else
+  if f ≠ fc then .err (.tcp 1 tid unit fc) else
   (s.rd16 10).bind fun q =>
-  if !(q ≥ 1 && q ≤ maxQ) then .err (.tcp 3 tid unit fc) else
+  if ¬(q ≥ 1 ∧ q ≤ maxQ) then .err (.tcp 3 tid unit fc) else
   (s.rd16 8).bind fun a =>
   .ok (tid, .read fc unit a q)
 
 /-- `ParseRead*RequestRTU` -/
 def parseReadReqRTU (fc : UInt8) (maxQ : UInt16) (s : Slice) : PRes Req :=
-  if s.len != 8 && s.len != 6 then .err (.rtu 4 0 0) else
+  if s.len ≠ 8 ∧ s.len ≠ 6 then .err (.rtu 4 0 0) else
   (s.idx 0).bind fun unit =>
   (s.idx 1).bind fun f =>
-  if f != fc then .err (.rtu 1 unit fc) else
+  if f ≠ fc then .err (.rtu 1 unit fc) else
   (s.rd16 4).bind fun q =>
-  if !(q ≥ 1 && q ≤ maxQ) then .err (.rtu 3 unit fc) else
+  if ¬(q ≥ 1 ∧ q ≤ maxQ) then .err (.rtu 3 unit fc) else
   (s.rd16 2).bind fun a =>
   .ok (.read fc unit a q)
 
@@ -155,20 +155,20 @@ def parseWCoilReqTCP (s : Slice) : PRes (UInt16 × Req) :=
   (s.idx 6).bind fun unit =>
   if s.len < 12 then .err (.tcp 3 tid unit 5) else
   (s.idx 7).bind fun f =>
-  if f != 5 then .err (.tcp 1 tid unit 5) else
+  if f ≠ 5 then .err (.tcp 1 tid unit 5) else
   (s.rd16 10).bind fun raw =>
-  if raw != 0xFF00 && raw != 0x0000 then .err (.tcp 3 tid unit 5) else
+  if raw ≠ 0xFF00 ∧ raw ≠ 0x0000 then .err (.tcp 3 tid unit 5) else
   (s.rd16 8).bind fun a =>
   .ok (tid, .wcoil unit a (raw == 0xFF00))
 
 /-- `ParseWriteSingleCoilRequestRTU` -/
 def parseWCoilReqRTU (s : Slice) : PRes Req :=
-  if s.len != 8 && s.len != 6 then .err (.rtu 4 0 0) else
+  if s.len ≠ 8 ∧ s.len ≠ 6 then .err (.rtu 4 0 0) else
   (s.idx 0).bind fun unit =>
   (s.idx 1).bind fun f =>
-  if f != 5 then .err (.rtu 1 unit 5) else
+  if f ≠ 5 then .err (.rtu 1 unit 5) else
   (s.rd16 4).bind fun raw =>
-  if raw != 0xFF00 && raw != 0x0000 then .err (.rtu 3 unit 5) else
+  if raw ≠ 0xFF00 ∧ raw ≠ 0x0000 then .err (.rtu 3 unit 5) else
   (s.rd16 2).bind fun a =>
   .ok (.wcoil unit a (raw == 0xFF00))
 
@@ -178,7 +178,7 @@ def parseWRegReqTCP (s : Slice) : PRes (UInt16 × Req) :=
   (s.idx 6).bind fun unit =>
   if s.len < 12 then .err (.tcp 3 tid unit 6) else
   (s.idx 7).bind fun f =>
-  if f != 6 then .err (.tcp 1 tid unit 5) else
+  if f ≠ 6 then .err (.tcp 1 tid unit 5) else
   (s.rd16 8).bind fun a =>
   (s.idx 10).bind fun d0 =>
   (s.idx 11).bind fun d1 =>
@@ -186,10 +186,10 @@ def parseWRegReqTCP (s : Slice) : PRes (UInt16 × Req) :=
 
 /-- `ParseWriteSingleRegisterRequestRTU` -/
 def parseWRegReqRTU (s : Slice) : PRes Req :=
-  if s.len != 8 && s.len != 6 then .err (.rtu 4 0 0) else
+  if s.len ≠ 8 ∧ s.len ≠ 6 then .err (.rtu 4 0 0) else
   (s.idx 0).bind fun unit =>
   (s.idx 1).bind fun f =>
-  if f != 6 then .err (.rtu 1 unit 6) else
+  if f ≠ 6 then .err (.rtu 1 unit 6) else
   (s.rd16 2).bind fun a =>
   (s.idx 4).bind fun d0 =>
   (s.idx 5).bind fun d1 =>
@@ -205,9 +205,9 @@ def parseWCoilsReqTCP (s : Slice) : PRes (UInt16 × Req) :=
   (s.idx 6).bind fun unit =>
   if s.len < 13 then .err (.tcp 3 tid unit 15) else
   (s.idx 7).bind fun f =>
-  if f != 15 then .err (.tcp 1 tid unit 15) else
+  if f ≠ 15 then .err (.tcp 1 tid unit 15) else
   (s.rd16 10).bind fun c =>
-  if !(c ≥ 1 && c ≤ 1968) then .err (.tcp 3 tid unit 15) else
+  if ¬(c ≥ 1 ∧ c ≤ 1968) then .err (.tcp 3 tid unit 15) else
   (s.idx 12).bind fun bc =>
   if s.len < 13 + bc.toNat then .err (.tcp 3 tid unit 15) else
   (copyOut s 13 bc.toNat).bind fun d =>
@@ -219,11 +219,11 @@ def parseWCoilsReqRTU (s : Slice) : PRes Req :=
   if s.len < 7 then .err (.rtu 4 0 0) else
   (s.idx 0).bind fun unit =>
   (s.idx 1).bind fun f =>
-  if f != 15 then .err (.rtu 1 unit 15) else
+  if f ≠ 15 then .err (.rtu 1 unit 15) else
   (s.rd16 4).bind fun c =>
-  if !(c ≥ 1 && c ≤ 1968) then .err (.rtu 3 unit 15) else
+  if ¬(c ≥ 1 ∧ c ≤ 1968) then .err (.rtu 3 unit 15) else
   (s.idx 6).bind fun bc =>
-  if s.len != 7 + bc.toNat && s.len != 7 + bc.toNat + 2 then .err (.rtu 3 unit 15) else
+  if s.len ≠ 7 + bc.toNat ∧ s.len ≠ 7 + bc.toNat + 2 then .err (.rtu 3 unit 15) else
   (copyOut s 7 bc.toNat).bind fun d =>
   (s.rd16 2).bind fun a =>
   .ok (.wcoils unit a c d)
@@ -234,11 +234,11 @@ def parseWRegsReqTCP (s : Slice) : PRes (UInt16 × Req) :=
   (s.idx 6).bind fun unit =>
   if s.len < 13 then .err (.tcp 3 tid unit 16) else
   (s.idx 7).bind fun f =>
-  if f != 16 then .err (.tcp 1 tid unit 16) else
+  if f ≠ 16 then .err (.tcp 1 tid unit 16) else
   (s.rd16 10).bind fun c =>
-  if !(c ≥ 1 && c ≤ 123) then .err (.tcp 3 tid unit 16) else
+  if ¬(c ≥ 1 ∧ c ≤ 123) then .err (.tcp 3 tid unit 16) else
   (s.idx 12).bind fun bc =>
-  if s.len != 13 + bc.toNat then .err (.tcp 3 tid unit 16) else
+  if s.len ≠ 13 + bc.toNat then .err (.tcp 3 tid unit 16) else
   (copyOut s 13 bc.toNat).bind fun d =>
   (s.rd16 8).bind fun a =>
   .ok (tid, .wregs unit a c d)
@@ -248,11 +248,11 @@ def parseWRegsReqRTU (s : Slice) : PRes Req :=
   if s.len < 8 then .err (.rtu 4 0 0) else
   (s.idx 0).bind fun unit =>
   (s.idx 1).bind fun f =>
-  if f != 16 then .err (.rtu 1 unit 16) else
+  if f ≠ 16 then .err (.rtu 1 unit 16) else
   (s.rd16 4).bind fun c =>
-  if !(c ≥ 1 && c ≤ 123) then .err (.rtu 3 unit 16) else
+  if ¬(c ≥ 1 ∧ c ≤ 123) then .err (.rtu 3 unit 16) else
   (s.idx 6).bind fun bc =>
-  if s.len != 7 + bc.toNat && s.len != 7 + bc.toNat + 2 then .err (.rtu 3 unit 16) else
+  if s.len ≠ 7 + bc.toNat ∧ s.len ≠ 7 + bc.toNat + 2 then .err (.rtu 3 unit 16) else
   (copyOut s 7 bc.toNat).bind fun d =>
   (s.rd16 2).bind fun a =>
   .ok (.wregs unit a c d)
@@ -263,15 +263,15 @@ def parseSidReqTCP (s : Slice) : PRes (UInt16 × Req) :=
   (s.idx 6).bind fun unit =>
   if s.len < 8 then .err (.tcp 3 tid unit 17) else
   (s.idx 7).bind fun f =>
-  if f != 17 then .err (.tcp 1 tid unit 17) else
+  if f ≠ 17 then .err (.tcp 1 tid unit 17) else
   .ok (tid, .sid unit)
 
 /-- `ParseReadServerIDRequestRTU` -/
 def parseSidReqRTU (s : Slice) : PRes Req :=
-  if s.len != 4 && s.len != 2 then .err (.rtu 4 0 0) else
+  if s.len ≠ 4 ∧ s.len ≠ 2 then .err (.rtu 4 0 0) else
   (s.idx 0).bind fun unit =>
   (s.idx 1).bind fun f =>
-  if f != 17 then .err (.rtu 1 unit 17) else
+  if f ≠ 17 then .err (.rtu 1 unit 17) else
   .ok (.sid unit)
 
 /-- `ParseReadWriteMultipleRegistersRequestTCP` -/
@@ -280,11 +280,11 @@ def parseRWReqTCP (s : Slice) : PRes (UInt16 × Req) :=
   (s.idx 6).bind fun unit =>
   if s.len < 17 then .err (.tcp 3 tid unit 23) else
   (s.idx 7).bind fun f =>
-  if f != 23 then .err (.tcp 1 tid unit 23) else
+  if f ≠ 23 then .err (.tcp 1 tid unit 23) else
   (s.rd16 10).bind fun rq =>
-  if !(rq ≥ 1 && rq ≤ 125) then .err (.tcp 3 tid unit 23) else
+  if ¬(rq ≥ 1 ∧ rq ≤ 125) then .err (.tcp 3 tid unit 23) else
   (s.rd16 14).bind fun wq =>
-  if !(wq ≥ 1 && wq ≤ 121) then .err (.tcp 3 tid unit 23) else
+  if ¬(wq ≥ 1 ∧ wq ≤ 121) then .err (.tcp 3 tid unit 23) else
   (s.idx 16).bind fun bc =>
   if s.len < 17 + bc.toNat then .err (.tcp 3 tid unit 23) else
   (copyOut s 17 bc.toNat).bind fun d =>
@@ -297,13 +297,13 @@ def parseRWReqRTU (s : Slice) : PRes Req :=
   if s.len < 12 then .err (.rtu 4 0 0) else
   (s.idx 0).bind fun unit =>
   (s.idx 1).bind fun f =>
-  if f != 23 then .err (.rtu 1 unit 23) else
+  if f ≠ 23 then .err (.rtu 1 unit 23) else
   (s.rd16 4).bind fun rq =>
-  if !(rq ≥ 1 && rq ≤ 125) then .err (.rtu 3 unit 23) else
+  if ¬(rq ≥ 1 ∧ rq ≤ 125) then .err (.rtu 3 unit 23) else
   (s.rd16 8).bind fun wq =>
-  if !(wq ≥ 1 && wq ≤ 121) then .err (.rtu 3 unit 23) else
+  if ¬(wq ≥ 1 ∧ wq ≤ 121) then .err (.rtu 3 unit 23) else
   (s.idx 10).bind fun bc =>
-  if s.len != 11 + bc.toNat && s.len != 11 + bc.toNat + 2 then .err (.rtu 3 unit 23) else
+  if s.len ≠ 11 + bc.toNat ∧ s.len ≠ 11 + bc.toNat + 2 then .err (.rtu 3 unit 23) else
   (copyOut s 11 bc.toNat).bind fun d =>
   (s.rd16 2).bind fun ra =>
   (s.rd16 6).bind fun wa =>
